@@ -214,6 +214,41 @@ struct Agg {
     slowest: (u64, u64, u64),
 }
 
+/// Runs per tier (quick; thorough = 10x): what ~60 s of wall clock yields on the reference VM with 8 workers.
+fn default_runs(id: &str, thorough: bool) -> u64 {
+    let q = match id {
+        "C01" => 1600,
+        "C02" => 1800,
+        "C03" => 1700,
+        "C04" => 500,
+        "C05" => 1500,
+        "C06" => 700,
+        "C07" => 36,
+        "C08" => 48,
+        "C09" => 42,
+        "C10" => 160,
+        "C11" => 1150,
+        "C12" => 230,
+        "C13" => 110,
+        "C15" => 1250,
+        "C16" => 560,
+        "C17" => 2500,
+        _ => 500,
+    };
+    if thorough {
+        q * 10
+    } else {
+        q
+    }
+}
+
+fn evidence_dir() -> PathBuf {
+    std::env::var("VERIF_EVIDENCE_DIR").map(PathBuf::from).unwrap_or_else(|_| verif_root().join("evidence"))
+}
+fn replays_dir() -> PathBuf {
+    std::env::var("VERIF_REPLAY_DIR").map(PathBuf::from).unwrap_or_else(|_| verif_root().join("replays"))
+}
+
 fn run_check(id: &str, tier: &str) -> i32 {
     let t0 = Instant::now();
     let sc = match scenario(id) {
@@ -224,7 +259,11 @@ fn run_check(id: &str, tier: &str) -> i32 {
         }
     };
     let thorough = tier == "thorough";
-    let budget_s0: u64 = std::env::var("VERIF_BUDGET_S").ok().and_then(|s| s.parse().ok()).unwrap_or(if thorough { 600 } else { 60 });
+    // The set of runs of a check is a function of VERIF_SEED alone: a fixed number of runs per tier
+    // (calibrated to ~60 s / ~600 s on this VM), with a wall-clock cap only as a safety net. With
+    // VERIF_BUDGET_S set and VERIF_MAX_RUNS unset the old behaviour (as many runs as fit) is kept for sweeps.
+    let budget_env: Option<u64> = std::env::var("VERIF_BUDGET_S").ok().and_then(|s| s.parse().ok());
+    let budget_s0: u64 = budget_env.unwrap_or(if thorough { 2400 } else { 240 });
     let env = Env { bins: bins(), thorough, deadline: t0 + Duration::from_secs(budget_s0) };
     for b in [&env.bins.small, &env.bins.real] {
         if !b.exists() {
@@ -233,11 +272,14 @@ fn run_check(id: &str, tier: &str) -> i32 {
         }
     }
     sweep_stale();
-    let base_seed: u64 = std::env::var("VERIF_SEED").ok().and_then(|s| s.parse().ok()).unwrap_or(20260921);
-    let budget_s: u64 = std::env::var("VERIF_BUDGET_S").ok().and_then(|s| s.parse().ok()).unwrap_or(if thorough { 600 } else { 60 });
-    let max_runs: u64 = std::env::var("VERIF_MAX_RUNS").ok().and_then(|s| s.parse().ok()).unwrap_or(u64::MAX);
+    let base_seed: u64 = std::env::var("VERIF_SEED").ok().and_then(|s| s.parse().ok()).unwrap_or(1);
+    let budget_s: u64 = budget_s0;
+    let max_runs: u64 = std::env::var("VERIF_MAX_RUNS")
+        .ok()
+        .and_then(|s| s.parse().ok())
+        .unwrap_or(if budget_env.is_some() { u64::MAX } else { default_runs(id, thorough) });
     let workers: usize = std::env::var("VERIF_WORKERS").ok().and_then(|s| s.parse().ok()).unwrap_or(8);
-    println!("wsim: property={} tier={} VERIF_SEED={} budget={}s workers={}", id, tier, base_seed, budget_s, workers);
+    println!("wsim: property={} tier={} VERIF_SEED={} runs={} cap={}s workers={}", id, tier, base_seed, if max_runs == u64::MAX { "unbounded".to_string() } else { max_runs.to_string() }, budget_s, workers);
     let deadline = t0 + Duration::from_secs(budget_s);
     let start_index: u64 = std::env::var("VERIF_START_INDEX").ok().and_then(|s| s.parse().ok()).unwrap_or(0);
     let next = AtomicU64::new(start_index);
@@ -338,7 +380,7 @@ fn run_check(id: &str, tier: &str) -> i32 {
         }
     }
     let mut violations = 0;
-    let replay_dir = verif_root().join("replays");
+    let replay_dir = replays_dir();
     let _ = std::fs::create_dir_all(&replay_dir);
     let mut violation_lines = Vec::new();
     for (rule, list) in new_by_rule.iter() {
@@ -432,7 +474,7 @@ fn run_check(id: &str, tier: &str) -> i32 {
         "wall_s": wall,
         "violations": violations,
     });
-    let evdir = verif_root().join("evidence");
+    let evdir = evidence_dir();
     let _ = std::fs::create_dir_all(&evdir);
     std::fs::write(evdir.join(format!("{}.json", id)), serde_json::to_vec_pretty(&ev).unwrap()).expect("evidence");
     println!(
